@@ -340,6 +340,10 @@ pub struct RunCtx {
     pub crash_victims: RefCell<BTreeSet<usize>>,
     /// blobs that were part of the storage when the last close began
     pub served_at_close: RefCell<BTreeSet<usize>>,
+    /// number of in-session reopenings so far
+    pub reopen_count: std::cell::Cell<u32>,
+    /// a force_update_active_blob request was issued since the storage was (re)opened
+    pub force_update_since_open: std::cell::Cell<bool>,
     /// keys whose answers differed from the model in the last full comparison, with the record counts at that moment
     pub mismatch_keys_last: RefCell<(BTreeSet<u8>, Vec<(usize, usize)>)>,
     /// the same, frozen when a clean close began (None: records were appended since the comparison)
@@ -463,7 +467,8 @@ where
     if sess.ignore_corrupted.unwrap_or(store.ignore_corrupted) {
         b = b.ignore_corrupted();
     }
-    if let Some(bl) = &store.bloom {
+    let alt = if sess.bloom_use_alt { sess.bloom_alt.as_ref() } else { None };
+    if let Some(bl) = alt.or(store.bloom.as_ref()) {
         b = b.set_filter_config(BloomConfig {
             elements: bl.elements,
             hashers_count: bl.hashers,
@@ -517,6 +522,8 @@ where
         forbidden_records: RefCell::new(BTreeSet::new()),
         crash_victims: RefCell::new(BTreeSet::new()),
         served_at_close: RefCell::new(BTreeSet::new()),
+        reopen_count: std::cell::Cell::new(0),
+        force_update_since_open: std::cell::Cell::new(false),
         mismatch_keys_last: RefCell::new((BTreeSet::new(), Vec::new())),
         mismatch_before_close: RefCell::new(None),
         acked_before_crash: RefCell::new(BTreeSet::new()),
